@@ -389,6 +389,15 @@ func genStmt(g *rand.Rand) (refql.Stmt, bool) {
 			}
 		}
 	}
+	// further fields next to the first one (auxiliary values travel with the
+	// point between nodes): raw selects, and selectors without GROUP BY time
+	if s.Interval == 0 && (s.Func == "" || s.Func == "min" || s.Func == "max" || s.Func == "first" || s.Func == "last") && g.Intn(3) == 0 {
+		for _, f := range []string{"i", "f", "s", "b"} {
+			if f != s.Field && g.Intn(2) == 0 {
+				s.Aux = append(s.Aux, f)
+			}
+		}
+	}
 	if g.Intn(4) == 0 {
 		s.Desc = true
 	}
@@ -705,7 +714,7 @@ func compareRef(want []refql.Series, got []cluster.Row) string {
 		}
 		for j := range w.Rows {
 			row := g.Values[j]
-			if len(row) != 2 {
+			if len(row) != 2+len(w.Rows[j].Aux) {
 				return fmt.Sprintf("series %d row %d has %d columns", i, j, len(row))
 			}
 			tn, ok := row[0].(json.Number)
@@ -718,6 +727,11 @@ func compareRef(want []refql.Series, got []cluster.Row) string {
 			}
 			if !sameVal(w.Rows[j].V, row[1]) {
 				return fmt.Sprintf("series %d (%v) row %d t=%d: reference value %v, server %v", i, w.Tags, j, ti, w.Rows[j].V, row[1])
+			}
+			for a, av := range w.Rows[j].Aux {
+				if !sameVal(av, row[2+a]) {
+					return fmt.Sprintf("series %d (%v) row %d t=%d: column %d: reference value %v, server %v", i, w.Tags, j, ti, 2+a, av, row[2+a])
+				}
 			}
 		}
 	}
